@@ -634,6 +634,18 @@ theorem tie_create_modify_handlers :
       "return nil"] := by
   decide
 
+/-- the watch callbacks of the master's state machines: a registration key that appears becomes
+`NodeStartup`, one that vanishes `NodeFailure`; a config key `DatabaseConfigChanged` /
+`DatabaseConfigDeletion`; an assignment key `ShardAssignmentChanged` (create callback first, delete
+callback second) — the event kinds `register` / `crash` / `cfg` / `drop` / `deliverAsg` of the
+`World` model queue resp. apply -/
+theorem tie_factory_event_types :
+    Generated.C18.factoryEventTypes = [
+      "createStorageNodeStateMachine: watch constants.StorageLiveNodesPath, discovery.NodeStartup, discovery.NodeFailure",
+      "createDatabaseConfigStateMachine: watch constants.DatabaseConfigPath, discovery.DatabaseConfigChanged, discovery.DatabaseConfigDeletion",
+      "createShardAssignmentStateMachine: watch constants.ShardAssignmentPath, discovery.ShardAssignmentChanged, discovery.ShardAssignmentDeletion"] := by
+  decide
+
 /-- a failed read of the persisted assignment (any error but ErrNotExist) never leads to a write:
 the repository is left exactly as it was — an existing database is not taken for a new one -/
 theorem cfg_read_fault_changes_nothing (r : Store) (view : List Nat) (db : Nat) (numShards rf : Int)
